@@ -45,11 +45,11 @@ text("C03",
      TB, "deterministic simulation with fault injection (seeded schedule search, reference-model oracle)", "DESIGN.md 4 C03")
 
 add("C08", "exploration",
-    [{"name": "tube-stream", "quick_s": 40, "thorough_s": 900}],
-    real=["tubes (Muxer, Reliable, sender, receiver, frames, priority queue)", "common.DeadlineChan"],
+    [{"name": "tube-stream", "quick_s": 35, "thorough_s": 900}, {"name": "tube-reassembly", "quick_s": 8, "thorough_s": 200}],
+    real=["tubes (Muxer, Reliable, sender, receiver, frames, priority queue)", "common.DeadlineChan", "tube-reassembly: the real tubes.receiver alone (overlay accessor), everything else stubbed"],
     stub=["transport session under the muxers (replaced by a simulated MsgConn pair so that frame-level faults are exact)"])
 text("C08",
-     "seeded exploration of packet-fault schedules (loss up to 60 %, duplication, reordering by jitter and long delays, loss bursts, total and one-way outages from 0.1 s to 10 simulated minutes followed by recovery) under 1-3 reliable tubes with both directions active, write-size profiles from 1 byte to several windows; prefix oracle on every Read against the canonical written stream, end-of-stream position oracle at the end that stays open, bounded-liveness oracle (every written byte readable within 5 simulated minutes after the last fault)",
+     "seeded exploration of packet-fault schedules (loss up to 60 %, duplication, reordering by jitter and long delays, loss bursts, total and one-way outages from 0.1 s to 10 simulated minutes followed by recovery) under 1-3 reliable tubes with both directions active, write-size profiles from 1 byte to several windows; prefix oracle on every Read against the canonical written stream, end-of-stream position oracle at the end that stays open, bounded-liveness oracle (every written byte readable within 5 simulated minutes after the last fault); plus a component-level simulation of the reassembly core: the real receiver is fed seeded arrival schedules of 1-12 frames (+FIN) with reordering, duplicates and frames far outside or at the edge of the window, starting at frame numbers 1, around 2^31, across the 2^32 wrap and beyond 2^33, and after every arrival the assembled bytes must equal the in-order prefix of what arrived and the FIN must be processed exactly when its number is reached",
      TB + "; the liveness bound (5 min) is a harness parameter, not mirrored from the code", "deterministic simulation with fault injection (seeded fault-schedule search, prefix/EOF/bounded-liveness oracles)", "DESIGN.md 4 C08")
 
 add("C10", "exploration",
